@@ -285,6 +285,30 @@ def judge_dump_text(s, text, expected, mode, det, iora_ok, iora_val, iora_msg):
         s.obs("roundtrips_equal")
 
 
+def judge_value(s, rec, v, line):
+    det = lambda **kw: dict(case=line[:20000], **kw)
+    cv = R.from_canon(rec["cv"])
+    d0 = R.first_diff(v, cv)
+    if d0:
+        s.viol("C13:value:construction-differs", f"value built through the Json constructors reads back differently at {d0[0]}: {d0[1]}", det())
+        return
+    for d in rec["dumps"]:
+        mode = d["m"]
+        s.obs("dumps")
+        s.obs("dump_mode_" + mode)
+        if "exc" in d:
+            s.viol(f"C13:dump:{mode}:exception", f"dump/reparse threw {d['exc']}", det())
+            continue
+        text = bytes.fromhex(d["t"])
+        if d["ok"] == 1:
+            iv = v if d["same"] else R.from_canon(d["rv"])
+            if d["same"] and not d["eq"]:
+                s.viol("C13:equality:identical-values-compare-unequal", "operator== is false for a re-parsed value whose rendering is identical", det())
+            judge_dump_text(s, text, v, mode, det, True, iv, None)
+        else:
+            judge_dump_text(s, text, v, mode, det, False, None, d.get("msg"))
+
+
 def shard_values(binary, seed, idx, count, tmp):
     rng = random.Random((seed << 20) ^ (idx * 104729 + 2))
     s = SH.S()
@@ -298,27 +322,7 @@ def shard_values(binary, seed, idx, count, tmp):
         rec = recs.get(i)
         if rec is None:
             continue
-        det = lambda **kw: dict(case=lines[i][:20000], **kw)
-        cv = R.from_canon(rec["cv"])
-        if R.first_diff(v, cv):
-            d = R.first_diff(v, cv)
-            s.viol("C13:value:construction-differs", f"value built through the Json constructors reads back differently at {d[0]}: {d[1]}", det())
-            continue
-        for d in rec["dumps"]:
-            mode = d["m"]
-            s.obs("dumps")
-            s.obs("dump_mode_" + mode)
-            if "exc" in d:
-                s.viol(f"C13:dump:{mode}:exception", f"dump/reparse threw {d['exc']}", det())
-                continue
-            text = bytes.fromhex(d["t"])
-            if d["ok"] == 1:
-                iv = v if d["same"] else R.from_canon(d["rv"])
-                if d["same"] and not d["eq"]:
-                    s.viol("C13:equality:identical-values-compare-unequal", "operator== is false for a re-parsed value whose rendering is identical", det())
-                judge_dump_text(s, text, v, mode, det, True, iv, None)
-            else:
-                judge_dump_text(s, text, v, mode, det, False, None, d.get("msg"))
+        judge_value(s, rec, v, lines[i])
         for f in feats:
             s.obs("value_feature:" + f)
         s.case(sig=["value", feats], sample=dict(kind="value", tokens=lines[i][:200]))
@@ -571,7 +575,7 @@ def run(ctx):
     binary = vf.build("c13_json", "asan", ASAN_FLAGS)
     if thorough:
         vf.build("c13_json", "fuzz", FUZZ_FLAGS)
-    scale = 100 if thorough else 1
+    scale = int(os.environ.get("VF_THOROUGH_SCALE", "100")) if thorough else 1      # thorough = quick counts x100 (+ libFuzzer)
     n_texts, n_values, n_mut, n_store = 20000 * scale, 20000 * scale, 50000 * scale, 400 * (10 if thorough else 1)
     per = 5000 if not thorough else 20000
     jobs = []
@@ -632,6 +636,9 @@ def replay(ctx, path):
     if kind == "P" and 0 in recs:
         _, lim, hx = line.split(" ", 2)
         judge_parse(s, recs[0], bytes.fromhex(hx), tuple(int(x) for x in lim.split(",")), det.get("input_class", "replay"), (), [], line)
+    elif kind == "V" and 0 in recs:
+        v, _ = G.parse_value_tokens(line[1:].split())
+        judge_value(s, recs[0], v, line)
     elif 0 in recs:
         print(json.dumps(recs[0])[:4000])
     SH.handle_events(s, PROP, events, [line], lambda k: "replay")
